@@ -32,3 +32,17 @@ func (s *Service) VerifPutRaw(_ context.Context, key []byte, value []byte) error
 		return txn.Set(key, value)
 	})
 }
+
+// VerifBlockWrites keeps the store in badger's "writes blocked" state (as during a drop or
+// a close) for as much of the time as it can until stop is closed: reads succeed, commits fail.
+// The prefix that is dropped meanwhile matches no record.
+func (s *Service) VerifBlockWrites(stop <-chan struct{}) {
+	for {
+		select {
+		case <-stop:
+			return
+		default:
+			_ = s.store.db.DropPrefix([]byte{0xff, 0xff, 0xff, 0xff, 0xff, 0xff, 0xff, 0xff, 0xff})
+		}
+	}
+}
